@@ -99,11 +99,26 @@ fn has_magic(d: &[u8]) -> bool {
     d.len() >= 4 && ((d[0] == 0x36 && d[1] == 0x04) || d[0..4] == [0x72, 0xb5, 0x4a, 0x86])
 }
 
+/// the exact guard of the raw round trip (`Model/Font.lean: rawGuard`): no PSF1 magic; PSF2 magic only with the overlay header
+fn raw_guard(d: &[u8], h: usize) -> bool {
+    if d.len() < 4 {
+        return true;
+    }
+    if d[0] == 0x36 && d[1] == 0x04 {
+        return false;
+    }
+    if d[0..4] == [0x72, 0xb5, 0x4a, 0x86] {
+        let rd = |o: usize| -> Option<u32> { d.get(o..o + 4).map(|b| u32::from_le_bytes(b.try_into().unwrap())) };
+        return rd(4) == Some(0) && rd(8) == Some(0) && rd(16) == Some(256) && rd(20) == Some(h as u32) && rd(24) == Some(h as u32) && rd(28) == Some(8);
+    }
+    true
+}
+
 fn wf_font(f: &BitFont) -> bool {
     f.size.width == 8 && f.size.height >= 1 && f.glyphs.len() <= 55296 && f.glyphs.len() as i32 == f.length && (0..f.length as u32).all(|i| char::from_u32(i).and_then(|c| f.get_glyph(c)).map(|g| g.data.len() as i32 == f.size.height).unwrap_or(false))
 }
 
-fn embed_roundtrip(font: &BitFont, ext: &str, compress: bool) -> Result<Result<BitFont, String>, String> {
+fn embed_roundtrip(font: &BitFont, ext: &str, compress: bool) -> Result<Result<(Vec<u8>, BitFont), String>, String> {
     let font = font.clone();
     let ext = ext.to_string();
     catch(std::panic::AssertUnwindSafe(move || {
@@ -118,7 +133,7 @@ fn embed_roundtrip(font: &BitFont, ext: &str, compress: bool) -> Result<Result<B
         let bytes = buf.to_bytes(&ext, &o).map_err(|e| format!("save: {e}"))?;
         let name = format!("a.{ext}");
         let back = Buffer::from_bytes(Path::new(&name), false, &bytes).map_err(|e| format!("load: {e}"))?;
-        back.get_font(0).cloned().ok_or_else(|| "no font 0 after load".to_string())
+        back.get_font(0).cloned().map(|f| (bytes, f)).ok_or_else(|| "no font 0 after load".to_string())
     }))
 }
 
@@ -149,6 +164,27 @@ fn font_case(run: &mut Run, input: &str, fc: &FontCase, name: &str, prebuilt: Op
     let u8d = catch(std::panic::AssertUnwindSafe(|| font.convert_to_u8_data()));
     let magic = u8d.as_ref().map(|d| has_magic(d)).unwrap_or(false);
     run.case(&format!("font {m} wf"), &format!("{} {}", wf_font(&font), !magic));
+    // the recorded finding is keyed by the EXACT guard: a failure of data the guard admits is a new violation
+    let unguarded = fc.n == 256 && u8d.as_ref().map(|d| !raw_guard(d, fc.h)).unwrap_or(false);
+    if fc.n == 256 && fc.h >= 1 {
+        run.case(&format!("font {m} guard"), &format!("{}", !unguarded));
+    }
+    // one glyph through the clipboard encoding
+    for k in [0u32, 65, 255, (fc.n as u32).saturating_sub(1), fc.n as u32] {
+        let obs = match char::from_u32(k).and_then(|c| font.get_clipboard_data(c)) {
+            Some(d) => match catch(|| icy_engine::Glyph::from_clipbard_data(&d)) {
+                Ok((size, g)) => {
+                    if wf_font(&font) && (size != font.size || Some(&g) != char::from_u32(k).and_then(|c| font.get_glyph(c))) {
+                        run.oracle_fail("clip_rt", input, &format!("glyph {k} through get_clipboard_data / from_clipbard_data comes back different"));
+                    }
+                    format!("{}:{} {} {} {}", d.len(), fnv(d.iter().map(|b| *b as u64)), size.width, size.height, fnv(g.data.iter().map(|b| *b as u64)))
+                }
+                Err(_) => "panic".to_string(),
+            },
+            None => "none".to_string(),
+        };
+        run.case(&format!("font {m} clip {k}"), &obs);
+    }
     let psf2 = catch(std::panic::AssertUnwindSafe(|| font.to_psf2_bytes().map_err(|_| ())));
     run.case(&format!("font {m} psf2"), &hash_res(psf2.clone()));
     run.case(&format!("font {m} u8"), &hash_res(u8d.clone().map(Ok)));
@@ -161,6 +197,7 @@ fn font_case(run: &mut Run, input: &str, fc: &FontCase, name: &str, prebuilt: Op
         return;
     }
     // --- oracle: the round trips
+    let psf2_file = if fc.h % 8 == 0 { psf2.clone() } else { Err(String::new()) };
     match psf2 {
         Ok(Ok(bytes)) => match catch(|| BitFont::from_bytes("x", &bytes)) {
             Ok(Ok(back)) => {
@@ -173,6 +210,24 @@ fn font_case(run: &mut Run, input: &str, fc: &FontCase, name: &str, prebuilt: Op
         },
         _ => run.oracle_fail("psf2_rt", input, "to_psf2_bytes failed on a complete font"),
     }
+    // PSF2 bytes through a file and `BitFont::load`
+    if let Ok(Ok(bytes)) = &psf2_file {
+        let path = std::env::temp_dir().join(format!("c17_font_{}_{}.psf", std::process::id(), fnv(input.bytes().map(|b| b as u64))));
+        if std::fs::write(&path, bytes).is_ok() {
+            match catch(|| BitFont::load(&path)) {
+                Ok(Ok(back)) => {
+                    if let Err(e) = same_font(&font, &back) {
+                        run.oracle_fail("psf2_rt", input, &format!("PSF2 file through BitFont::load: {e}"));
+                    } else if back.path_opt.as_deref() != Some(path.as_path()) {
+                        run.oracle_fail("psf2_rt", input, "BitFont::load does not record the path");
+                    }
+                }
+                Ok(Err(e)) => run.oracle_fail("psf2_rt", input, &format!("PSF2 file rejected by BitFont::load: {e}")),
+                Err(l) => run.oracle_fail("psf2_rt", input, &format!("panic at {} in BitFont::load", panic_site(&l))),
+            }
+            let _ = std::fs::remove_file(&path);
+        }
+    }
     if let Ok(d) = &u8d {
         // create_8 / from_basic (what XBin, ADF, IDF loaders call)
         let back = BitFont::create_8("x", 8, fc.h as u8, &d[..(256 * fc.h).min(d.len())]);
@@ -184,20 +239,22 @@ fn font_case(run: &mut Run, input: &str, fc: &FontCase, name: &str, prebuilt: Op
             match catch(|| BitFont::from_bytes("x", d)) {
                 Ok(Ok(back)) => {
                     if let Err(e) = same_font(&font, &back) {
-                        run.oracle_fail(if magic { "raw_font_magic_ambiguity" } else { "raw_rt" }, input, &format!("raw glyph data → from_bytes: {e}"));
+                        run.oracle_fail(if unguarded { "raw_font_magic_ambiguity" } else { "raw_rt" }, input, &format!("raw glyph data → from_bytes: {e}"));
+                    } else if unguarded {
+                        run.oracle_fail("raw_guard_not_exact", input, "raw glyph data outside rawGuard came back unchanged");
                     }
                 }
-                Ok(Err(e)) => run.oracle_fail(if magic { "raw_font_magic_ambiguity" } else { "raw_rt" }, input, &format!("raw glyph data rejected: {e}")),
+                Ok(Err(e)) => run.oracle_fail(if unguarded { "raw_font_magic_ambiguity" } else { "raw_rt" }, input, &format!("raw glyph data rejected: {e}")),
                 Err(l) => run.oracle_fail("raw_rt", input, &format!("panic at {}", panic_site(&l))),
             }
             // DCS font sequence through the real parser
             match dcs_roundtrip(&font, slot) {
                 Ok(Some(back)) => {
                     if let Err(e) = same_font(&font, &back) {
-                        run.oracle_fail(if magic { "raw_font_magic_ambiguity" } else { "dcs_rt" }, input, &format!("DCS CTerm:Font round trip: {e}"));
+                        run.oracle_fail(if unguarded { "raw_font_magic_ambiguity" } else { "dcs_rt" }, input, &format!("DCS CTerm:Font round trip: {e}"));
                     }
                 }
-                Ok(None) => run.oracle_fail(if magic { "raw_font_magic_ambiguity" } else { "dcs_rt" }, input, "DCS CTerm:Font sequence did not install a font"),
+                Ok(None) => run.oracle_fail(if unguarded { "raw_font_magic_ambiguity" } else { "dcs_rt" }, input, "DCS CTerm:Font sequence did not install a font"),
                 Err(l) => run.oracle_fail("dcs_rt", input, &format!("panic at {}", panic_site(&l))),
             }
         }
@@ -214,9 +271,11 @@ fn font_case(run: &mut Run, input: &str, fc: &FontCase, name: &str, prebuilt: Op
     }
     for (ext, key, compress) in formats {
         match embed_roundtrip(&font, ext, compress) {
-            Ok(Ok(back)) => {
+            Ok(Ok((file, back))) => {
                 if let Err(e) = same_font(&font, &back) {
-                    let key = if ext == "xb" && name == "Codepage 437 English" { "xbin_font_named_default" } else { key };
+                    // the recorded finding and nothing else: named like the default font, NO font block in the file, the
+                    // built-in default glyphs come back (any other XBin font failure keeps its own key)
+                    let key = if ext == "xb" && crate::fontbox::named_default_symptom(&font, &file, &back) { "xbin_font_named_default" } else { key };
                     run.oracle_fail(key, input, &format!("font embedded in .{ext} and read back: {e}"));
                 }
             }
@@ -658,6 +717,114 @@ fn one(run: &mut Run, input: &str) {
                 bundle_case(run, input, &fs);
             }
         }
+        // DCS sequence for a given slot number (any usize), through the real parser
+        "dcsslot" => {
+            let (slot, h, seed): (usize, usize, u64) = (f[0].parse().unwrap_or(0), f[1].parse().unwrap_or(16), f.get(2).and_then(|x| x.parse().ok()).unwrap_or(0));
+            let data = fill_bytes(256 * h, seed);
+            let font = BitFont::create_8("custom", 8, h as u8, &data);
+            let s = catch(std::panic::AssertUnwindSafe(|| font.encode_as_ansi(slot).into_bytes()));
+            run.case(&format!("font mk 256 {h} {seed} dcs {slot}"), &hash_res(s.map(Ok)));
+            run.count("dcsslot");
+            match dcs_roundtrip(&font, slot) {
+                Ok(Some(back)) => {
+                    if let Err(e) = same_font(&font, &back) {
+                        run.oracle_fail(if raw_guard(&data, h) { "dcs_rt" } else { "raw_font_magic_ambiguity" }, input, &format!("DCS CTerm:Font round trip into slot {slot}: {e}"));
+                    }
+                }
+                Ok(None) => run.oracle_fail(if raw_guard(&data, h) { "dcs_rt" } else { "raw_font_magic_ambiguity" }, input, &format!("DCS CTerm:Font sequence did not install a font in slot {slot}")),
+                Err(l) => run.oracle_fail("dcs_rt", input, &format!("panic at {}", panic_site(&l))),
+            }
+        }
+        // font pages / SAUCE names that do not exist are errors, not panics and not some other font
+        "nofont" => {
+            let k: usize = f[0].parse().unwrap_or(43);
+            match catch(|| (BitFont::from_ansi_font_page(k).is_err(), BitFont::from_sauce_name(&format!("no such font {k}")).is_err())) {
+                Ok((true, true)) => {}
+                Ok(_) => run.oracle_fail("builtin_font", input, "a font page / SAUCE font name that does not exist gave a font"),
+                Err(l) => run.oracle_fail("builtin_font", input, &format!("panic at {}", panic_site(&l))),
+            }
+            run.count("nofont");
+        }
+        // a colour font whose glyph data ends exactly `L` bytes + 3 behind 89 maximal glyphs: totals 65534 / 65535 / 65536
+        "tdfedge" => {
+            let l: usize = f[0].parse().unwrap_or(206);
+            let mut table: Vec<Option<TGlyph>> = vec![None; 94];
+            let mut k = 0u64;
+            let mut cell = |data: &mut Vec<u8>| {
+                k += 1;
+                let mut c = fill_byte(7, k);
+                if c == 0 || c == 13 {
+                    c = 0x41;
+                }
+                data.push(c);
+                k += 1;
+                data.push(fill_byte(7, k));
+            };
+            for slot in table.iter_mut().take(89) {
+                let mut data = Vec::new();
+                for y in 0..12 {
+                    for _ in 0..30 {
+                        cell(&mut data);
+                    }
+                    if y + 1 < 12 {
+                        data.push(13);
+                    }
+                }
+                *slot = Some(TGlyph { w: 30, h: 12, data });
+            }
+            // last glyph: `l` bytes = 2 * cells + (rows - 1) carriage returns, rows of at most 30 cells
+            let rows = if l % 2 == 0 { 5 } else { 6 };
+            let cells = (l - (rows - 1)) / 2;
+            let mut data = Vec::new();
+            let mut left = cells;
+            for y in 0..rows {
+                let n = left.min(30).min(left.div_ceil(rows - y));
+                for _ in 0..n {
+                    cell(&mut data);
+                }
+                left -= n;
+                if y + 1 < rows {
+                    data.push(13);
+                }
+            }
+            table[93] = Some(TGlyph { w: 30, h: rows as i32, data });
+            let t = TFont { ty: 2, spaces: 2, name: "Edge".into(), table };
+            run.count(&format!("tdf total glyph data {}", tdf_total(&t)));
+            tdf_case(run, input, &t);
+        }
+        // a bundle through a file and `TheDrawFont::load`
+        "tdfload" => {
+            let fs: Vec<TFont> = rest.split('|').filter_map(parse_tfont).collect();
+            let ts: Vec<TheDrawFont> = fs.iter().map(build_tdf).collect();
+            if let Ok(bytes) = TheDrawFont::create_font_bundle(&ts) {
+                let path = std::env::temp_dir().join(format!("c17_{}_{}.tdf", std::process::id(), fnv(input.bytes().map(|b| b as u64))));
+                if std::fs::write(&path, &bytes).is_ok() {
+                    match catch(|| TheDrawFont::load(&path)) {
+                        Ok(Ok(back)) if back.len() == fs.len() => {
+                            for (i, (f0, bk)) in fs.iter().zip(back.iter()).enumerate() {
+                                let single = build_tdf(f0).as_tdf_bytes().unwrap_or_default();
+                                if wf_tdf(f0) {
+                                    if let Err(e) = same_tdf(f0, &single, bk) {
+                                        run.oracle_fail("tdf_bundle_rt", input, &format!("font {i} of the bundle file read by TheDrawFont::load: {e}"));
+                                    }
+                                }
+                            }
+                        }
+                        Ok(Ok(back)) => run.oracle_fail("tdf_bundle_rt", input, &format!("{} fonts read by TheDrawFont::load from a bundle file of {}", back.len(), fs.len())),
+                        Ok(Err(e)) => {
+                            if fs.iter().all(wf_tdf) {
+                                run.oracle_fail("tdf_bundle_rt", input, &format!("bundle file rejected by TheDrawFont::load: {e}"));
+                            }
+                        }
+                        Err(l) => run.oracle_fail("tdf_bundle_rt", input, &format!("panic at {} in TheDrawFont::load", panic_site(&l))),
+                    }
+                    let _ = std::fs::remove_file(&path);
+                }
+            }
+            run.count("tdfload");
+        }
+        "box" => crate::fontbox::file_case(run, input, &f),
+        "icy" => crate::fontbox::icy_case(run, input, &f),
         "tdfraw" => {
             let b = unhex(f[0]);
             let (obs, _) = dec_obs(&b);
@@ -871,6 +1038,94 @@ pub fn run(run: &mut Run, seed: u64, thorough: bool, replay: Option<&str>, corpu
     }
     for t in ["-", "13", "1354686544726177"] {
         one(run, &format!("tdfraw:{t}"));
+    }
+    // (own generator state from here on: the cases above keep their seeds)
+    let mut xr = Rng::new(seed ^ 0xC17E);
+    // 512-glyph fonts of every height (PSF2, IcyDraw)
+    if !thorough {
+        for h in (1..=32usize).filter(|h| h % 4 != 0) {
+            one(run, &format!("bf:512:{h}:{}", xr.below(100000)));
+        }
+    }
+    // raw data that starts with a PSF magic number: PSF1 (never comes back), PSF2 + junk (rejected), PSF2 + the overlay
+    // header of the same height (comes back), overlay header of another height / width / count (rejected)
+    for h in [1usize, 2, 8, 16, 32] {
+        let mk = |pre: &[u8], xr: &mut Rng| -> String {
+            let mut d = xr.bytes(256 * h);
+            d[..pre.len().min(256 * h)].copy_from_slice(&pre[..pre.len().min(256 * h)]);
+            format!("bfx:256:{h}:{}", hex(&d))
+        };
+        let ov = |len: u32, cs: u32, ht: u32, w: u32, hs: u32, ver: u32| -> Vec<u8> {
+            let mut p = vec![0x72, 0xb5, 0x4a, 0x86];
+            for v in [ver, hs, 0x0909_0909, len, cs, ht, w] {
+                p.extend(v.to_le_bytes());
+            }
+            p
+        };
+        let hh = h as u32;
+        one(run, &mk(&[0x36, 0x04, 0, h as u8], &mut xr));
+        one(run, &mk(&[0x36, 0x04, 1, 1], &mut xr));
+        one(run, &mk(&[0x72, 0xb5, 0x4a, 0x86], &mut xr));
+        one(run, &mk(&ov(256, hh, hh, 8, 0, 0), &mut xr));
+        one(run, &mk(&ov(256, hh, hh, 8, 32, 0), &mut xr));
+        one(run, &mk(&ov(256, hh, hh, 8, 0, 1), &mut xr));
+        one(run, &mk(&ov(255, hh, hh, 8, 0, 0), &mut xr));
+        one(run, &mk(&ov(256, hh + 1, hh, 8, 0, 0), &mut xr));
+        one(run, &mk(&ov(128, 2 * hh, 2 * hh, 8, 0, 0), &mut xr));
+        one(run, &mk(&ov(256, hh, hh, 7, 0, 0), &mut xr));
+        one(run, &mk(&ov(256, 2 * hh, hh, 16, 0, 0), &mut xr));
+    }
+    // DCS font loading: slot numbers over the whole usize range, every padding shape of base64 (height mod 3)
+    for (i, slot) in [0usize, 1, 9, 10, 42, 255, 256, 65535, 65536, 4294967295, 4294967296, usize::MAX - 1, usize::MAX].iter().enumerate() {
+        one(run, &format!("dcsslot:{slot}:{}:{}", [1usize, 2, 3, 16, 32, 31][i % 6], xr.below(1000)));
+    }
+    for k in [43usize, 44, 100, usize::MAX] {
+        one(run, &format!("nofont:{k}"));
+    }
+    // TheDraw: glyph data that ends 1 below / exactly at / 1 above the 16-bit limit of the format
+    for l in [205usize, 206, 207] {
+        one(run, &format!("tdfedge:{l}"));
+    }
+    // TheDraw: every header field of a written file damaged in turn (id length, id, ^Z, font indicator, name length,
+    // type, letter spacing, block size, first / last glyph offset)
+    for ty in 0..3u8 {
+        let mut t = gen_tfont(&mut xr, 6, false);
+        t.ty = ty;
+        if t.table.iter().all(|g| g.is_none()) {
+            t.table[0] = Some(gen_glyph(&mut xr, ty, false));
+        }
+        let tb = build_tdf(&t);
+        if let Ok(b) = tb.as_tdf_bytes() {
+            for (off, vals) in [(0usize, vec![0u8, 18, 20, 255]), (1, vec![0x74]), (18, vec![0]), (19, vec![0, 0x1B]), (20, vec![0x54]), (23, vec![0]), (24, vec![0, 13, 200, 255]), (41, vec![3, 255]), (42, vec![41, 255]), (43, vec![0, 1, 255]), (44, vec![255])] {
+                for v in vals {
+                    let mut m = b.clone();
+                    if off < m.len() {
+                        m[off] = v;
+                        one(run, &format!("tdfraw:{}", hex(&m)));
+                    }
+                }
+            }
+            // glyph offsets: just inside / at / beyond the block and the file
+            let bs = u16::from_le_bytes([b[43], b[44]]) as usize;
+            for idx in [0usize, 93] {
+                for v in [0usize, bs.saturating_sub(2), bs.saturating_sub(1), bs, bs + 1, 0xFFFE, 0xFFFF] {
+                    let mut m = b.clone();
+                    let o = 45 + 2 * idx;
+                    m[o] = v as u8;
+                    m[o + 1] = (v >> 8) as u8;
+                    one(run, &format!("tdfraw:{}", hex(&m)));
+                }
+            }
+        }
+    }
+    {
+        let fs: Vec<TFont> = (0..3).map(|_| gen_tfont(&mut xr, 10, false)).collect();
+        one(run, &format!("tdfload:{}", fs.iter().map(|f| tfont_desc(f, ":")).collect::<Vec<_>>().join("|")));
+    }
+    // fonts inside containers, next to the other optional blocks (own generator state: the cases above keep their seeds)
+    let mut brng = Rng::new(seed ^ 0xB0C5);
+    for t in crate::fontbox::cases(&mut brng, thorough) {
+        one(run, &t);
     }
     run.extra.push(("heights_1_to_32_all_covered".into(), "true".into()));
     run.extra.push(("font_pages_0_to_42_and_all_sauce_fonts".into(), "true".into()));
